@@ -355,9 +355,12 @@ class _Seq:
         if isinstance(st, ast.Expr) and isinstance(st.value, ast.Call) and (_call_name(st.value.func) or "").startswith("self.") \
                 and [ast.unparse(a) for a in st.value.args] == [of_cache_var] and not st.value.keywords and CLS_NODE:
             h = [f for f in CLS_NODE[0].body if isinstance(f, ast.FunctionDef) and "self." + f.name == _call_name(st.value.func)]
-            if len(h) == 1 and len(h[0].args.args) == 2:
-                hb = _strip_doc(h[0].body)
-                return len(hb) == 1 and self.cancel_futures_loop(hb[0], h[0].args.args[1].arg)
+            if len(h) == 1:
+                static = any(isinstance(d, ast.Name) and d.id == "staticmethod" for d in h[0].decorator_list)
+                params = [a.arg for a in h[0].args.args][(0 if static else 1):]
+                if len(params) == 1 and all(isinstance(d, ast.Name) and d.id == "staticmethod" for d in h[0].decorator_list):
+                    hb = _strip_doc(h[0].body)
+                    return len(hb) == 1 and self.cancel_futures_loop(hb[0], params[0])
             return False
         if not (isinstance(st, ast.For) and not st.orelse and len(st.body) == 1):
             return False
@@ -496,13 +499,19 @@ class _Seq:
             self.waiter_vars.add(st.targets[0].id)
             self.ops.append("resolveWaiter")
             return True
+        if isinstance(st, ast.If):
+            for n in ast.walk(st.test):     # `if (waiter := self._waiters.pop(…)) is not None and not waiter.done():`
+                if isinstance(n, ast.NamedExpr) and isinstance(n.value, ast.Call) \
+                        and _call_name(n.value.func) == "self._waiters.pop" and n.target.id not in self.waiter_vars:
+                    self.waiter_vars.add(n.target.id)
+                    self.ops.append("resolveWaiter")
         if isinstance(st, ast.If) and any(isinstance(n, ast.Name) and n.id in self.waiter_vars for n in ast.walk(st.test)):
             # `if waiter is not None and not waiter.done(): waiter.set_result(cache)` — nothing else may hide in there
             b = st.body
             if not st.orelse and len(b) == 1 and isinstance(b[0], ast.Expr) and isinstance(b[0].value, ast.Call) \
                     and (_call_name(b[0].value.func) or "").split(".")[0] in self.waiter_vars \
                     and (_call_name(b[0].value.func) or "").endswith(".set_result") \
-                    and all(_call_name(c.func) in {w + ".done" for w in self.waiter_vars}
+                    and all(_call_name(c.func) in {w + ".done" for w in self.waiter_vars} | {"self._waiters.pop"}
                             for c in ast.walk(st.test) if isinstance(c, ast.Call)):
                 return True
             self.fail("waiter hand-over does more than waiter.set_result(cache)", st)
@@ -611,10 +620,17 @@ class _Seq:
         it, tgt = st.iter, st.target
         if not (isinstance(it, ast.Attribute) and it.attr == "managed_futures" and isinstance(it.value, ast.Name)
                 and it.value.id == cache and isinstance(tgt, ast.Tuple) and len(tgt.elts) == 2
-                and all(isinstance(e, ast.Name) for e in tgt.elts) and not st.orelse and len(st.body) in (1, 2)):
+                and all(isinstance(e, ast.Name) for e in tgt.elts) and not st.orelse and len(st.body) in (1, 2, 3)):
             return False
         fut, val = tgt.elts[0].id, tgt.elts[1].id
         g = st.body[0]
+        if len(st.body) == 3 and isinstance(g, ast.If) and not g.orelse and ast.unparse(g.test) == f"{fut}.done()" \
+                and len(g.body) == 1 and isinstance(g.body[0], ast.Continue):
+            # guard clause, then `resolve = fut.set_exception if isinstance(val, Exception) else fut.set_result; resolve(val)`
+            a, call = st.body[1], st.body[2]
+            return (isinstance(a, ast.Assign) and len(a.targets) == 1 and isinstance(a.targets[0], ast.Name)
+                    and ast.unparse(a.value) == f"{fut}.set_exception if isinstance({val}, Exception) else {fut}.set_result"
+                    and isinstance(call, ast.Expr) and ast.unparse(call.value) == f"{a.targets[0].id}({val})")
         if len(st.body) == 2 and isinstance(g, ast.If) and not g.orelse and ast.unparse(g.test) == f"{fut}.done()" \
                 and len(g.body) == 1 and isinstance(g.body[0], ast.Continue):
             c = st.body[1]                                      # guard clause: `if future.done(): continue`
